@@ -19,7 +19,7 @@ type vOuter struct {
 	Title string `json:"title"`
 	Inner vInner `json:"inner"`
 	Ptr   *vInner
-	List  []int    `json:"list"`
+	List  []int `json:"list"`
 	M     map[string]any
 	priv  string
 }
